@@ -94,11 +94,27 @@ class ExecBase:
                     d[k] = (v.ty, v.t)
         return d
 
+    def has_quant(self, t):
+        cache = self.__dict__.setdefault("_hq", {})
+        k = t.get_id()
+        hit = cache.get(k)
+        if hit is not None and hit[0].eq(t):
+            return hit[1]
+        if z3.is_quantifier(t):
+            r = True
+        else:
+            r = any(self.has_quant(c) for c in t.children()) if z3.is_app(t) else False
+        cache[k] = (t, r)
+        return r
+
     def feasible(self, st):
+        """Path pruning only: `unsat` prunes, anything else keeps the path. Quantified facts are
+        left out (dropping hypotheses can only keep more paths), which keeps this query cheap."""
         self.fs.push()
         try:
             for p in st.pc:
-                self.fs.add(p)
+                if not self.has_quant(p):
+                    self.fs.add(p)
             r = self.fs.check()
         finally:
             self.fs.pop()
@@ -147,12 +163,30 @@ class ExecBase:
 
     def hwrite(self, st, ref_t, cls, fld, v, ty=None, check_frame=True):
         ty = ty or self.field_ty(cls, fld)
-        cv = T.coerce(v, ty)
+        cv = self.coerce_to(st, v, ty, fld)
         if cv is None:
             raise Unsupported("cannot store %s into %s.%s : %s (line %s)" % (v.ty, cls, fld, ty, self.cur_line))
         if check_frame and not self.spec:
             self.frame_check(st, ref_t, cls, fld)
         st.heap[(cls, fld)] = z3.Store(self.hmap(st, cls, fld, ty), ref_t, cv.t)
+
+    def coerce_to(self, st, v, ty, what="value"):
+        """T.coerce plus narrowing: an Optional value flows into a non-optional slot when the path
+        guarantees it is not None (an obligation), component-wise through tuples."""
+        cv = T.coerce(v, ty)
+        if cv is not None:
+            return cv
+        if isinstance(v.ty, Opt) and not isinstance(ty, Opt):
+            ci = self.coerce_to(st, T.opt_val(v), ty, what)
+            if ci is not None:
+                if not self.spec:
+                    self.oblige(st, "none", "narrow-" + what, z3.Not(T.opt_is_none(v)))
+                return ci
+        if isinstance(v.ty, Tup) and isinstance(ty, Tup) and len(v.ty.items) == len(ty.items):
+            parts = [self.coerce_to(st, T.tup_get(v, i), ty.items[i], what) for i in range(len(ty.items))]
+            if all(p is not None for p in parts):
+                return T.tup_mk(ty, parts)
+        return None
 
     def alloc(self, st, cls):
         r = st.nalloc
@@ -310,6 +344,8 @@ class ExecBase:
                                             and a.t.__dict__ == b.t.__dict__))
         if isinstance(a.ty, Ref) and isinstance(b.ty, Ref):
             return a.t == b.t
+        if self.spec and {type(a.ty), type(b.ty)} <= {Ref, Fut, type(INT)} and (a.ty == INT or b.ty == INT):
+            return a.t == b.t          # specs may quantify over object identities as integers
         raise Unsupported("== between %s and %s (line %s)" % (a.ty, b.ty, self.cur_line))
 
     # ------------------------------------------------------------- exceptions
